@@ -21,9 +21,11 @@ def rows(ids):
         own = [r for r in res if r[2] == prop]
         first = own[0][5] if own else "?"
         caught = {}
-        for r in res:
+        for r in res:  # in chronological order: the latest evaluation of a check counts
             if r[5] == "VIOLATED":
                 caught[r[2]] = "%s / %s" % ((r[6] or "?").strip(), (r[7] or "?").strip())
+            elif r[5] == "HELD":
+                caught.pop(r[2], None)
         order = sorted(caught, key=lambda c: (c != prop, c))
         cb = "; ".join("%s (%s)" % (c, caught[c]) for c in order) or "not caught"
         fp = "caught" if first == "VIOLATED" else ("missed at first, caught after strengthening" if prop in caught else ("missed by its own check; caught by " + ", ".join(order) if caught else "missed"))
